@@ -43,8 +43,25 @@ StopClauses(r) ==
    \cup (IF r.s2ran > 0 THEN {"C05_StepStartedAfterStop"} ELSE {})
    \cup (IF r.variant = "sigint" /\ r.gotint # 1 THEN {"C05_SignalOnStopNotUsed"} ELSE {})
    \cup (IF r.variant = "repeat" /\ (r.iterdone # r.started \/ r.started > 2) THEN {"C05_RepeatStepDisturbedOrRepeated"} ELSE {}))
+\* kind "outcome" (C04 on the real binary): what a run reports through each channel - persisted status, exit code of the
+\* start command, handlers that ran, mails sent - against what its steps did; ExpectedHandlers is the operator of the model
+PS == INSTANCE Props_Sched
+RngOf(seq) == {seq[i] : i \in DOMAIN seq}
+OutcomeClauses(r) ==
+  IF r.infra # "" THEN {"INFRA"} ELSE
+  (IF r.run # r.wantRun THEN {"C04_RealWrongOutcome"} ELSE {})
+  \cup (IF r.dagPreUnmet /\ (r.handlersRan # <<>> \/ r.stepsRan # <<>> \/ r.run # "") THEN {"C04_RanDespiteDagPrecondition"} ELSE {})
+  \cup (IF r.run # "" /\ r.handlersRan # PS!ExpectedHandlers(RngOf(r.handlers), r.run) THEN {"C04_RealWrongHandlers"} ELSE {})
+  \cup (IF (r.run = "finished" /\ r.exit # 0) \/ (r.run = "failed" /\ r.exit = 0) \/ (r.dagPreUnmet /\ r.exit = 0)
+          THEN {"C04_RealExitCodeDisagrees"} ELSE {})
+  \cup (IF \/ r.run = "finished" /\ (r.errMails # 0 \/ r.infoMails # (IF r.mailOn THEN 1 ELSE 0))
+           \/ r.run = "failed" /\ (r.infoMails # 0 \/ r.errMails # r.failedStepsWithMail + (IF r.mailOn THEN 1 ELSE 0))
+           \/ r.run = "canceled" /\ r.infoMails # 0
+           \/ r.dagPreUnmet /\ r.mails # <<>>
+           \/ ~r.finalStatusInSubject
+          THEN {"C04_RealMailDisagrees"} ELSE {})
 Clauses(r) == IF r.kind = "kill" THEN KillClauses(r) ELSE IF r.kind = "truth" THEN TruthClauses(r)
-              ELSE IF r.kind = "stop" THEN StopClauses(r) ELSE SecondClauses(r)
+              ELSE IF r.kind = "stop" THEN StopClauses(r) ELSE IF r.kind = "outcome" THEN OutcomeClauses(r) ELSE SecondClauses(r)
 Init == l = 1 /\ bad = 0
 Next == /\ l <= Len(Trace) /\ l' = l + 1
         /\ LET c == Clauses(R) IN IF c = {} THEN UNCHANGED bad
